@@ -132,7 +132,12 @@ def auto_rules(text, fired):
             c = match_close(toks, i + 1)
             name = toks[i + 2].text if i + 2 < n else ''
             if name in DROP_ATTRS:
-                edits.append((t.start, toks[c].end, ''))
+                keep = ''
+                if name == 'derive':
+                    names = [x.text for x in toks[i + 3:c] if x.kind == 'ident']
+                    if 'Copy' in names and 'Clone' in names:
+                        keep = '#[derive(Clone, Copy)]'  # Copy-ness is part of the type's meaning; other derives are dropped
+                edits.append((t.start, toks[c].end, keep))
                 fired['R1'] = fired.get('R1', 0) + 1
             elif name == 'cfg':
                 raise GenError('unsupported #[cfg] inside extracted item')
